@@ -236,6 +236,17 @@ func fmtErrorSourceLineWithParser(p *syntax.Parser, cursorIdx int, withCursorMar
 		}
 		startIdx -= 1
 	}
+	// the line break that precedes the line may sit at index 0
+	if startIdx == 0 && startIdx < cursorIdx && (sourceT[0] == syntax.RuneCR || sourceT[0] == syntax.RuneLF) {
+		startIdx = 1
+	}
+	// the cursor may rest on the line break (or indentation) before the quoted line
+	if endIdx < startIdx {
+		endIdx = startIdx
+	}
+	if cursorIdx < startIdx {
+		cursorIdx = startIdx
+	}
 	// find next until meeting first CR/LF
 	for endIdx < len(sourceT) {
 		if sourceT[endIdx] == syntax.RuneCR || sourceT[endIdx] == syntax.RuneLF {
